@@ -55,6 +55,7 @@ def mode_class(rng):
             if rng.random() < 0.6: kw.append("no_output=%r" % rng.choice([ms(), ms(), True]))
             if rng.random() < 0.3: kw.append("no_input=%r" % rng.choice([ms(), True]))
             if not any(k.startswith("default") for k in kw) and rng.random() < 0.6: kw.append("required=%r" % rng.choice([False, ms()]))
+            elif any(k.startswith("default") for k in kw) and rng.random() < 0.3: kw.append("required=%r" % ms())     # required in some modes, defaulted in the others
             lines.append("    %s: int = Field(%s)" % (fn, ", ".join(kw)) if kw else "    %s: int" % fn)
             fields.append(dict(attname=fn, type="int", aliases=[fn], ci=False, theme="modes"))
         src = "\n".join(lines) + "\n"
